@@ -180,7 +180,8 @@ def run(tier, replay=None):
     rep.cov["worst_factor_by_medium_nu"] = {
         f"{m},{n}": round(max(r["worst"] for r in results
                               if r["cfg"][2] == m and r["cfg"][4] == n), 4)
-        for (m, n) in MEASURED}
+        for (m, n) in MEASURED
+        if any(r["cfg"][2] == m and r["cfg"][4] == n for r in results)}
     rep.cov["sizes"] = sorted({max(r["cfg"][0]) for r in results})
     k = rng.randrange(len(results))
     rep.sample({"cfg": results[k]["cfg"], "factors": [
